@@ -217,7 +217,8 @@ def install(ex):
     ex.hooks.setdefault("call_value", []).append(call_transform)
 
 
-BOUNDED = {"C08": [{"name": "units-catalogue", "script": "replay/drivers/bnd_units.py", "args": ["--json"], "timeout": 600},
+BOUNDED = {"C08": [{"name": "metadata-products", "script": "replay/drivers/bnd_info.py", "args": ["--json"], "timeout": 600},
+                   {"name": "units-catalogue", "script": "replay/drivers/bnd_units.py", "args": ["--json"], "timeout": 600},
                    {"name": "prepare-payload-forms", "script": "replay/drivers/bnd_prepare.py", "args": ["--json"], "timeout": 600},
                    {"name": "grid-layouts", "script": "replay/drivers/bnd_grids.py", "args": ["--json"], "timeout": 3000}]}
 REPLAY = {f"{INP}.pull_data": "seq_output.py", f"{INP}._convert_and_check": "seq_output.py"}
